@@ -115,6 +115,28 @@ def load(repo=None):
                         # a table of function items: the call through the element is a call of that function
                         inline._devirtualise(F, F.fns[fid_])
             F.new_helpers["unrolled"] = unr
+            # 4. in functions that differ from the confirmed tree (or were rewritten above), a boolean that only carries the outcome
+            #    of a test to the next `if` is threaded through
+            hp = os.path.join(os.path.dirname(kp), "known_hashes.json")
+            thr = []
+            if os.path.exists(hp):
+                import json as _json
+                kh = _json.load(open(hp))
+                for fid_ in list(F.fns):
+                    f_ = F.fns[fid_]
+                    if f_.get("crate") not in build.CRATES:
+                        continue
+                    raw_ = F.raw_fns.get(fid_)
+                    changed_ = raw_ is None or f_ is not raw_ or kh.get(fid_) != inline.body_hash(raw_)
+                    if changed_:
+                        if f_ is raw_:
+                            import copy as _copy
+                            f_ = _copy.deepcopy(f_)
+                        n_ = inline.thread_bool_phis(f_)
+                        if n_:
+                            F.fns[fid_] = f_
+                            thr.append((fid_, n_))
+            F.new_helpers["threaded"] = thr
         _cache[fdir] = F
     return _cache[fdir]
 
